@@ -269,6 +269,7 @@ let () =
       | "ACCESS", _ -> (match rest () with k :: r -> access := (int_of_string k, fst (take_cps r)) :: !access | _ -> ())
       | "ENDTABLES", _ -> check_tables !kws !puncts (List.rev !newsyms) !access
       | "SKEL", _ -> process_skel (rest ())
+      | "LAWFAIL", Some r -> mismatch r "oracle-law" (String.concat " " (rest ()))
       | "CASE", _ ->
         (match rest () with
          | [id; stream; hex] ->
